@@ -3,12 +3,12 @@ import os, re, shutil
 from . import common as C
 
 MANIFEST = dict(
-   technique="Lean 4 proof over a store model of the reference-typed schema state (Checks array with Go append semantics, Bag/Values/Shape maps, registry entry) + history correspondence: every exported chaining method of every schema type is called by reflection and the model must predict the same verdicts and the same sharing structure",
-   text="c08_step / c08_hist / c08_hist_all prove, for the code after pending/C08-clone-bag.diff (Internals.Clone always clones the Bag), that along every history of chaining calls (any receivers, sibling fan-outs, any append growth rule) no operation writes a location that existed before the call, so every live schema keeps its observation and every result is a new schema. today_partial_mutates_receiver / c08_today_false are the witnesses that the statement is false for the pinned Clone (Record.Partial mutates its receiver); obsL_frame / applyLOp_spec / c08_local_step extend the frame theorems to the type-local reference state of object/struct/union types (PartialExceptions / option lists beside Shape: reference copied, dropped, or a fresh key set), with exceptions_in_place_mutates_receiver as the witness for in-place edits. metaSelf_violates shows Meta() on the non-string types (returns the receiver, rewrites its registry entry) falsifies the full statement — known finding per type.",
-   note="Partial: Meta() on 28 non-string schema types is excluded (open known findings). The store model is a hand-written abstraction (observation = contents reachable from the schema; Parse/ToJSONSchema are taken to be functions of it), tied to /repo by reflective snapshots (slice headers, map identities, contents) and behavioural fingerprints (31 probes, IsOptional/IsNilable, ToJSONSchema) after every call of ~1400 type×method pairs; op classes come from a name table in the harness; append capacities and 'result starts with a registry entry' are taken from the run as parameters. Trusted: Lean kernel, axioms propext/Classical.choice/Quot.sound, the Go harness and comparer.",
-   design="DESIGN.md §3.4, §5 C08")
+   technique="Lean 4 proof over a store model of the reference-typed schema state (Checks array with Go append semantics, Bag/Values/Shape maps, registry entry, any number of type-local reference slots, object Shape/PartialExceptions contents) + a translator (go/ast over types/*.go, core/transform.go) that regenerates on every run the table of ALL chaining methods (route, appended checks, origin of every type-local reference field, receiver writes) over which the coverage theorem is re-proved by decide +kernel + history correspondence: every exported chaining method of every schema type is called by reflection and the model and the table row must predict what the call did",
+   text="c08_step / c08_hist / c08_hist_all (and c08x_* for the extended op classes refilter/access) prove that along every history of chaining calls (any receivers, sibling fan-outs, any append growth rule) no operation of an op class the code has writes a location that existed before the call, so every live schema keeps its observation and every result is a new schema; c08_full_holds is the full statement over those classes. table_all_covered (decide +kernel over Gen/MethodOps.lean, regenerated from the source) proves that EVERY exported chaining method of every schema type is built by a covered route (Clone + withInternals/newObjectInternals, struct copy, constructor, accessor), writes nothing rooted at its receiver and calls nothing on shared check objects; denote_ok / c08_table_step / c08_table_hist_all lift the frame theorems to every history made of rows of the table; c08n_step covers any number of type-local reference slots for the slot actions the rows list (slots_of_covered). c08o_step / c08o_behaviour / c08o_hist prove for object schemas with Shape/PartialExceptions/UnknownKeys/Catchall CONTENTS that Extend/SafeExtend/Merge/Pick/Omit/Partial/Required/Strict/Strip/Passthrough/WithCatchall leave every live schema's content, verdict on every input (objParse, transcribing validateObject) and JSON-Schema object part (objDoc) unchanged; extend_content … catchall_content state what the result contains. Legacy witnesses: today_partial_mutates_receiver / c08_today_false (Clone before 97c97c3), metaSelf_violates / metaSelf_row_violates (Meta() before 6ba76b8).",
+   note="No open finding: the 28 meta-returns-receiver classes were one defect, fixed in /repo 6ba76b8. The store model is a hand-written abstraction (observation = contents reachable from the schema; Parse/ToJSONSchema of non-object types are taken to be functions of it), tied to /repo by reflective snapshots (slice headers, map identities, contents) and behavioural fingerprints (31 probes, IsOptional/IsNilable, ToJSONSchema) after every call of ~1400 type×method pairs; the method table is produced by a syntactic translator (no go/types; constructors are opaque), validated per call against the op class, the number of appended checks and the per-field sharing the run shows; append capacities and 'result starts with a registry entry' are taken from the run as parameters; member schemas are oracles of objParse; sync.Once-guarded cache fills (ZodLazy.innerType) are classed memo and not counted as changes. Trusted: Lean kernel, axioms propext/Classical.choice/Quot.sound, the Go harness, translator and comparer.",
+   design="DESIGN.md §3.4, §5 C08; notes/C08.md")
 
-MODULES = ["Gozod.Proofs.C08", "Gozod.Proofs.C08Methods"]
+MODULES = ["Gozod.Proofs.C08", "Gozod.Proofs.C08Methods", "Gozod.Proofs.C08Objects"]
 THEOREMS = [
     "Gozod.C08.c08_step", "Gozod.C08.c08_hist", "Gozod.C08.c08_hist_all", "Gozod.C08.c08_fresh",
     "Gozod.C08.applyOp_spec", "Gozod.C08.clone_spec", "Gozod.C08.appendAll_spec",
@@ -23,6 +23,13 @@ THEOREMS = [
     "Gozod.C08.applyRefilter_spec", "Gozod.C08.applyXOp_spec", "Gozod.C08.c08x_step", "Gozod.C08.c08x_hist", "Gozod.C08.c08x_hist_all",
     "Gozod.C08.c08_table_step", "Gozod.C08.c08_table_hist_all", "Gozod.C08.metaSelf_row_violates", "Gozod.C08.metaSelf_rows_shape",
     "Gozod.C08.obsN_frame", "Gozod.C08.applySlots_spec", "Gozod.C08.c08n_step", "Gozod.C08.slots_of_covered",
+    "Gozod.C08.table_all_covered", "Gozod.C08.c08_full_holds",
+    # object content (Shape / PartialExceptions / UnknownKeys / Catchall as contents)
+    "Gozod.C08.obsO_frame", "Gozod.C08.objConstruct_spec", "Gozod.C08.objDerive_spec", "Gozod.C08.applyObjOp_spec",
+    "Gozod.C08.c08o_step", "Gozod.C08.c08o_behaviour", "Gozod.C08.c08o_hist",
+    "Gozod.C08.extend_content", "Gozod.C08.pick_content", "Gozod.C08.omit_content", "Gozod.C08.partialKeys_content",
+    "Gozod.C08.requiredKeys_content", "Gozod.C08.mode_content", "Gozod.C08.catchall_content",
+    "Gozod.C08.partial_makes_optional", "Gozod.C08.partial_keeps_required",
 ]
 
 
@@ -158,7 +165,8 @@ def run(res):
         "distinct = distinct abstract histories (op lines).")
     res.assumptions += [
         "a schema's Parse verdicts/results and its JSON Schema are functions of the contents the store model observes (validated by the fingerprints staying equal whenever the snapshot content does)",
-        "op classes (derive/copymeta/metaself/bagwrite/rebuild/wrap/refilter/access) are assigned by method name in harness/cmd/c08; a wrong assignment shows as a structure mismatch",
+        "the op class the run reports per call (derive/copymeta/bagwrite/rebuild/wrap/refilter/access) comes from behaviour and a small name set; it must be admitted by the method's row of the table regenerated from the source (a mismatch is a broken tie)",
+        "the translator harness/opsgen is syntactic: constructors and calls into other packages are opaque; member schemas are oracles of the object model",
         "Go append growth is supplied by the run (the theorems hold for every growth function)",
     ]
     return res.finish()
